@@ -4,3 +4,6 @@ import Dm.Props.C12
 #print axioms Dm.Props.C12.cast_roundtrip
 #print axioms Dm.Props.C12.no_variant_is_err
 #print axioms Dm.Props.C12.repr_single_attr
+#print axioms Dm.Props.C12.constsFrom_eq
+#print axioms Dm.Props.C12.tryFromAux_spec
+#print axioms Dm.Props.C12.repr_none
